@@ -27,7 +27,9 @@ RULE = ('binary and length matrices, directed and undirected, n=1..8: exhaustive
         'all undirected graphs n<=4 quick / n<=5 thorough) + structured families (ER at 4 densities, ring, star, path, complete, '
         'disjoint unions, isolated nodes, directed cycle + chords, tree + chords) with integer lengths from {1},{1,2},{1..4} '
         '(many exact ties); weighted input for the binary routines: signed integer weights n<=8 (cancelling walk products) and '
-        'weights 1e-6/1e-7 on chains of 40-70 nodes (underflowing products)'
+        'weights 1e-6/1e-7 on chains of 40-70 nodes (underflowing products); lengths where tolerance-based comparisons go wrong, all exact '
+        'in binary64: {1..4}*2^-40, near-ties {2^20-1,2^20,2^20+1,2^21-2,2^21+1,2^21+3} as integers and scaled by 2^-20, inv transform '
+        'on weights 2^28..2^30; charpath called 3-4 times on one array object with different flag combinations (include_infinite=False first, defaults last)'
         '; inv transform on dyadic weights (exact) and on {1,2,3} (tolerance); log transform on weights '
         '2^-k in (0,1] (tolerance). non-trivial = at least one finite off-diagonal distance; distinct by hash of (kind, matrix)')
 ASSUMES = ['the theorems are over exact rationals: on lengths that are NOT exact in binary64 (1/3, k*ln 2) rounding can separate exactly tied alternatives — one known finding (edge-count-tie) lives exactly there',
@@ -209,6 +211,15 @@ def weighted(ctx, A, vals):
     return W
 
 
+# lengths that are exact in binary64 but sit where a tolerance-based comparison (np.isclose: rtol 1e-5, atol 1e-8) goes wrong:
+# tiny dyadic scale (every length and every difference is far below atol) and large near-ties (differences of a few units
+# on ~2^20..2^22, relative difference ~1e-6 < rtol), the latter also scaled down by 2^-20
+TINY = [F(k, 2 ** 40) for k in (1, 2, 3, 4)]
+NEAR = [2 ** 20 - 1, 2 ** 20, 2 ** 20 + 1, 2 ** 21 - 2, 2 ** 21 + 1, 2 ** 21 + 3]
+NEAR_SCALED = [F(k, 2 ** 20) for k in NEAR]
+SCALE_FAMS = [('tiny-2^-40', TINY), ('near-tie', NEAR), ('near-tie-2^-20', NEAR_SCALED)]
+
+
 def all_digraphs(n):
     cells = [(i, j) for i in range(n) for j in range(n) if i != j]
     for m in range(1 << len(cells)):
@@ -381,6 +392,52 @@ def mean_clauses(ctx, dist, n):
     return off, lam, eff
 
 
+CP_FLAGS = [(False, True), (False, False), (True, True), (True, False)]     # (include_diagonal, include_infinite)
+
+
+def charpath_oracle(dist, n, incl_diag, incl_inf):
+    """mean and mean inverse of the TRUE distances under the two flags; None = nan (nothing to average)"""
+    vals = [(0 if s == t else dist[s][t]) for s in range(n) for t in range(n) if (incl_diag or s != t)]
+    if not incl_inf:
+        vals = [v for v in vals if v != INF]
+    if not vals:
+        return None, None
+    lam = INF if INF in vals else F(sum(vals)) / len(vals)
+    eff = INF if any(v == 0 for v in vals) else sum((F(1) / F(v) if v != INF else 0) for v in vals) / len(vals)
+    return lam, eff
+
+
+def charpath_sequence(ctx, bct, dist, n, case, B_=None):
+    """charpath is called SEVERAL times on the SAME array object with different flag combinations (order rotated
+    per case); every call is judged against the oracle computed from the original distances and the caller's
+    array must be unchanged after every call (an aliasing charpath writes nan into it, which only a later call shows)."""
+    Dt = np.array([[0.0 if s == t else float(dist[s][t]) for t in range(n)] for s in range(n)]).reshape(n, n)
+    D0 = Dt.copy()
+    k = int(ctx.nprng.randint(4))
+    mid = ([2], [3], [2, 3], [3, 2])[k]
+    order = [CP_FLAGS[1]] + [CP_FLAGS[m] for m in mid] + [CP_FLAGS[0]]       # starts with include_infinite=False, ends with the defaults
+    orc = {}
+    ctx.count('charpath:sequence-start-%d' % k)
+    seen = set()
+    for (dg, inf_) in order:
+        with np.errstate(all='ignore'):
+            l_, e_ = call(bct.charpath, Dt, include_diagonal=dg, include_infinite=inf_)[:2]
+        if (dg, inf_) not in orc:
+            orc[(dg, inf_)] = charpath_oracle(dist, n, dg, inf_)
+        lam, eff = orc[(dg, inf_)]
+        tag = '[include_diagonal=%s,include_infinite=%s]' % (dg, inf_)
+        ctx.check(fclose(l_, lam), 'charpath:mean' + ('' if (dg, inf_) == CP_FLAGS[0] else tag),
+                  'lambda=%r, mean distance=%s (call sequence on one array: %s)' % (float(l_), lam, order), case)
+        ctx.check(fclose(e_, eff), 'charpath:mean-inverse' + ('' if (dg, inf_) == CP_FLAGS[0] else tag),
+                  'efficiency=%r, mean inverse distance=%s (call sequence on one array: %s)' % (float(e_), eff, order), case)
+        if not np.array_equal(Dt, D0):
+            ctx.fail('charpath:no-mutation', "the caller's distance matrix was modified by charpath%s" % tag, case)
+            D0 = Dt.copy()          # keep going on the caller's (now damaged) array: later calls show the wrong means
+        if B_ is not None and (dg, inf_) not in seen:
+            seen.add((dg, inf_))
+            B_.add('charpath ' + enc_mat(Dt_to_opt(dist), enc_oq) + ' %d %d' % (int(dg), int(inf_)), 'charpath', case, (l_, e_))
+
+
 def fclose(x, want, tol=1e-9):
     if want is None:
         return bool(np.isnan(x))
@@ -435,14 +492,7 @@ def do_binary(ctx, bct, A, fam, B_, with_model=True, light=False):
     # --- means
     if n >= 2 and not light:
         off, lam, eff = mean_clauses(ctx, dist, n)
-        Dt = np.array([[0.0 if s == t else float(dist[s][t]) for t in range(n)] for s in range(n)])
-        l_, e_ = call(bct.charpath, Dt)[:2]
-        ctx.check(fclose(l_, lam), 'charpath:mean', 'lambda=%r, mean distance=%s' % (float(l_), lam), case)
-        ctx.check(fclose(e_, eff), 'charpath:mean-inverse', 'efficiency=%r, mean inverse distance=%s' % (float(e_), eff), case)
-        fin = [d for d in off if d != INF]
-        l2, e2 = call(bct.charpath, Dt, include_infinite=False)[:2]
-        ctx.check(fclose(l2, F(sum(fin), len(fin)) if fin else None), 'charpath:mean-finite', 'include_infinite=False: lambda=%r' % float(l2), case)
-        ctx.check(fclose(e2, sum(F(1, d) for d in fin) / len(fin) if fin else None), 'charpath:mean-inverse-finite', 'include_infinite=False: efficiency=%r' % float(e2), case)
+        charpath_sequence(ctx, bct, dist, n, case, B_ if with_model else None)
         eb = call(bct.efficiency_bin, An.copy())
         ctx.check(fclose(eb, eff), 'efficiency_bin:mean-inverse', 'returned %r, mean inverse distance %s' % (float(eb), eff), case)
         ge, er, _ = call(bct.rout_efficiency, An.copy())
@@ -450,8 +500,6 @@ def do_binary(ctx, bct, A, fam, B_, with_model=True, light=False):
         ew = call(bct.efficiency_wei, An.copy())
         ctx.check(fclose(ew, eff), 'efficiency_wei:mean-inverse', 'returned %r on a 0/1 matrix, mean inverse distance %s' % (float(ew), eff), case)
         if with_model:
-            B_.add('charpath ' + enc_mat(Dt_to_opt(dist), enc_oq) + ' 0 1', 'charpath', case, (l_, e_))
-            B_.add('charpath ' + enc_mat(Dt_to_opt(dist), enc_oq) + ' 0 0', 'charpath', case, (l2, e2))
             B_.add('effbin ' + enc_mat(A), 'eff', case, eb)
             B_.add('rout 0 ' + enc_mat(A, enc_q) + ' 0', 'rout', case, (ge, er))
     if with_model:
@@ -471,7 +519,7 @@ def do_weighted(ctx, bct, W, fam, B_):
     """W: integer lengths (0 = no edge)"""
     n = len(W)
     Wn = npm(W)
-    case = {'kind': 'lengths', 'L': W}
+    case = {'kind': 'lengths', 'L': [[(x if isinstance(x, int) else str(x)) for x in row] for row in W]}
     E = exact_h(W)
     dist = dist_from_E(E)
     nontriv = any(dist[s][t] != INF for s in range(n) for t in range(n) if s != t)
@@ -497,10 +545,7 @@ def do_weighted(ctx, bct, W, fam, B_):
         okp = all(fclose(er[s, t], (F(1) / F(dist[s][t]) if dist[s][t] != INF else 0) if s != t else 0) for s in range(n) for t in range(n))
         ctx.check(okp, 'rout_efficiency:pairwise', 'Erout is not 1/distance off the diagonal', case)
         B_.add('rout 0 ' + enc_mat(W, enc_q) + ' 0', 'rout', case, (ge, er))
-        Dt = np.array([[0.0 if s == t else float(dist[s][t]) for t in range(n)] for s in range(n)])
-        l_, e_ = call(bct.charpath, Dt)[:2]
-        ctx.check(fclose(l_, lam), 'charpath:mean', 'lambda=%r, mean distance=%s' % (float(l_), lam), case)
-        ctx.check(fclose(e_, eff), 'charpath:mean-inverse', 'efficiency=%r, mean inverse=%s' % (float(e_), eff), case)
+        charpath_sequence(ctx, bct, dist, n, case)
     return dist, E
 
 
@@ -765,9 +810,15 @@ def run(ctx):
                 for vals in ([1, 2], [1, 2, 3, 4]):
                     W = weighted(ctx, A, vals)
                     do_weighted(ctx, bct, W, fam, B_)
+                if n >= 3 and (rep + n + len(fam)) % 2 == 0:
+                    sf, vals = SCALE_FAMS[((rep + n + len(fam)) // 2) % 3]
+                    ctx.count('wei-scale:' + sf)
+                    do_weighted(ctx, bct, weighted(ctx, A, vals), sf, B_)
                 if n <= 7:
                     do_inv(ctx, bct, weighted(ctx, A, [F(1), F(1, 2), F(1, 4)]), fam, B_, exact=True)
                     do_inv(ctx, bct, weighted(ctx, A, [F(1), F(2), F(3)]), fam, B_, exact=False)
+                    if n >= 3 and (rep + n + len(fam)) % 4 == 0:      # lengths 1/w = 2^-30, 2^-29, 2^-28 (exact)
+                        do_inv(ctx, bct, weighted(ctx, A, [F(2 ** 30), F(2 ** 29), F(2 ** 28)]), fam, B_, exact=True)
                     do_log(ctx, bct, weighted(ctx, A, [F(1), F(1, 2), F(1, 4), F(1, 8)]), fam, B_)
                     do_log(ctx, bct, weighted(ctx, A, [F(1, 2), F(1, 4)]), fam, B_)
     # 2b. pinned witnesses of the known rounding-tie defect of distance_wei_floyd (found by this harness, seeds 1 and 2)
@@ -784,7 +835,7 @@ def run(ctx):
         do_selfloop(ctx, bct, A, B_)
     # 4. weighted input for the binary routines (they binarise): signed integers whose walk products cancel, tiny weights on long chains
     do_weighted_support(ctx, bct, [[0, 1, 0, -1], [1, 0, 1, 0], [0, 1, 0, 1], [-1, 0, 1, 0]], 'signed-4cycle-witness', B_)
-    for rep in range(ctx.scale(8, 60)):
+    for rep in range(ctx.scale(6, 60)):
         for n in range(2, 9):
             p = (0.25, 0.45, 0.7)[int(r.randint(3))]
             vals = ([-1, 1], [-2, -1, 1, 2], [-3, -1, 1, 2])[int(r.randint(3))]
